@@ -88,7 +88,10 @@ WInit == stack = <<>> /\ deferred = <<>> /\ out = <<>> /\ errs = 0 /\ phase = "s
 \* the starting point
 Start(tree, cfg, root) ==
   /\ phase = "start"
-  /\ Set(Apply(tree, cfg, root.node, Handle(tree, cfg, root.spell, root.node, 0, {}, root.node), St))
+  /\ IF root.node = 0
+     THEN \* a starting point that does not exist: the iterator's first item is an error, and that is all
+          Set([St EXCEPT !.errs = errs + 1])
+     ELSE Set(Apply(tree, cfg, root.node, Handle(tree, cfg, root.spell, root.node, 0, {}, root.node), St))
   /\ phase' = "loop"
 
 \* a deferred directory whose contents are done is yielded (contents_first)
